@@ -180,7 +180,9 @@ class Interp(Engine):
         for ci in self.reg.concrete(ra):
             eqf = getattr(ci.pyclass, '__eq__', None)
             if eqf is None or eqf is object.__eq__:
-                raise Outside("class %s has no __eq__" % ci.name)
+                if st.spec:
+                    return a.t == b.t       # specification equality of value objects: same abstract value
+                raise Outside("class %s has no __eq__ (identity comparison of value objects)" % ci.name)
             # execute __eq__(a, b) under the assumption that a is of this concrete class
             sub = st.fork()
             sub.pc = []
@@ -239,11 +241,11 @@ class Interp(Engine):
         if isinstance(cond, bool):
             yield st, cond
             return
-        cond = z3.simplify(cond)
-        if z3.is_true(cond):
+        simp = z3.simplify(cond)      # only to recognise literals: the stored condition keeps its readable form
+        if z3.is_true(simp):
             yield st, True
             return
-        if z3.is_false(cond):
+        if z3.is_false(simp):
             yield st, False
             return
         if st.spec:
@@ -530,6 +532,10 @@ class Interp(Engine):
             return self._or([self.py_eq(x, c, st) for c in container.keys()])
         if isinstance(container, (str, bytes)) and is_concrete(x):
             return x in container
+        if isinstance(container, V) and container.ty.kind in ('map', 'set') and isinstance(x, V) and x.ty.kind == 'opt' \
+                and container.ty.args[0].kind != 'opt':
+            ok = opt_sort(to_sort(x.ty.args[0], self.reg))
+            return z3.And(ok.is_some(x.t), self.b(self.contains(container, V(ok.val(x.t), x.ty.args[0]), st)))
         if isinstance(container, V):
             k = container.ty.kind
             if k == 'map':
@@ -550,9 +556,10 @@ class Interp(Engine):
 
     def key_term(self, x, kty, st):
         """term used to index a map/set whose declared key type is kty (value classes may be keyed by a projection)"""
-        proj = getattr(self, 'key_projection', {}).get(kty.args[0] if kty.kind == 'cls' else None)
-        if proj is not None:
-            return proj(self, x, st)
+        if isinstance(x, V) and x.ty.kind == 'cls' and kty.kind != 'cls':
+            proj = self.key_projection.get(self.reg.root_of(x.ty.args[0]))
+            if proj is not None:
+                return proj(self, x, st)
         return self.term(x, kty, st)
 
     # ---------------------------------------------------------------------------------------------- arithmetic
@@ -995,6 +1002,19 @@ class Interp(Engine):
             return
         v = self.lift(v, st)
         kind = v.ty.kind
+        if kind == 'map' and isinstance(k, V) and k.ty.kind == 'opt' and v.ty.args[0].kind != 'opt':
+            # Optional key into a map with non-optional keys: None is never a key
+            ok = opt_sort(to_sort(k.ty.args[0], self.reg))
+            inner = V(ok.val(k.t), k.ty.args[0])
+            if st.spec:
+                yield from self.index(v, inner, st, e)
+                return
+            for s2, some in self.branch(st, ok.is_some(k.t), "L%s:key-None?" % line):
+                if some:
+                    yield from self.index(v, inner, s2, e)
+                else:
+                    yield s2, Raised(ExcVal(KeyError, origin=line))
+            return
         if kind == 'map':
             o = opt_sort(to_sort(v.ty.args[1], self.reg))
             cell = z3.Select(v.t, self.key_term(k, v.ty.args[0], st))
@@ -1014,6 +1034,9 @@ class Interp(Engine):
             else:
                 idx = self.term(k, INT)
             elem = v.t[idx]
+            if kind == 'list' and z3.is_app(v.t) and v.t.decl().kind() == z3.Z3_OP_SEQ_EXTRACT:
+                # element of a slice: the same element of the base sequence (in range, which is what is asked below)
+                elem = v.t.arg(0)[z3.simplify(v.t.arg(1) + idx)]
             res = V(z3.BV2Int(elem), INT) if kind == 'bytes' else V(elem, v.ty.args[0])
             if st.spec:
                 yield st, res
